@@ -38,7 +38,7 @@ func runSelftest(r *Run) *selftestResult {
 	res := &selftestResult{}
 	type job struct {
 		name, patch, kind string
-		residual         bool
+		residual          bool
 	}
 	var jobs []job
 	metas, _ := filepath.Glob(filepath.Join(r.Verif, "selftest", "variants", "*.json"))
